@@ -22,6 +22,8 @@ import warnings
 
 from harness import core
 from harness import lib_c02c14 as L
+from harness import lib_c02hist as HI
+from harness import lib_c02types as TY
 
 # ------------------------------------------------------------------ (a) ScopeSpace op sequences
 
@@ -343,6 +345,22 @@ def _case_worker(task):
     want_ort = not mode.endswith("-noort")
     mode = mode.replace("-noort", "")
     rng = random.Random(f"{seed}:{idx}")
+    if mode == "hist":
+        # a history of builds over the same Vars with different opset surroundings; every build is judged
+        case = HAND_HIST[idx - 2 * 10**6] if idx - 2 * 10**6 < len(HAND_HIST) else HI.gen_case(rng)
+        return {"mode": "hist", "case": case, "recs": HI.judge_history(case)}
+    if mode == "typed":
+        # a same-dtype argument whose shape differs from the declared type in exactly one way
+        k = idx - 3 * 10**6
+        grid = TY.all_cases()
+        case = grid[k] if k < len(grid) else TY.gen_case(rng)
+        st, m = TY.build_case(case)
+        out = {"mode": "typed", "case": case, "status": st}
+        if st == "ok":
+            out["bad"] = TY.judge_built(m)
+        else:
+            out["err"] = m
+        return out
     with warnings.catch_warnings():
         warnings.simplefilter("ignore")
         feat = {"custom": True, "generic": True, "func_if": True, "ml": True, "inline_sibling_names": True,
@@ -379,6 +397,17 @@ def _case_worker(task):
         return out
 
 
+HAND_HIST = HI.HAND_CASES
+
+
+def hist_key(bad):
+    """the known finding first (duplicates only between sibling bodies under inlined-model names, every other
+    judge green), else history:<judge>"""
+    if all(b[0] == "walker" for b in bad) and classify(bad) == "inline:sibling-bodies-share-names":
+        return "inline:sibling-bodies-share-names"
+    return HI.classify(bad)
+
+
 def custom_keys(spec):
     return [(c["domain"], c["ident"]) for c in spec.get("customs", [])]
 
@@ -412,6 +441,75 @@ def classify(bad):
         if k in kinds:
             return k
     return "invalid"
+
+
+def judge_histories(ck, hist_results):
+    """Verdicts of the build histories: EVERY build of every history was judged in the worker."""
+    st = {"histories": len(hist_results), "builds": 0, "returned": 0, "raised": 0, "with_fresh_comparison": 0,
+          "fresh_raises_history_returns": 0, "no_reference_value": 0, "inline_items": 0, "top_versions": {}}
+    best = {}
+    for r in hist_results:
+        case = r["case"]
+        st["inline_items"] += sum(1 for it in case["items"] if it["k"] == "inline")
+        for rec in r["recs"]:
+            st["builds"] += 1
+            if rec["status"] == "err":
+                st["raised"] += 1
+                ck.count(None)
+                continue
+            st["returned"] += 1
+            st["with_fresh_comparison"] += int(rec.get("fresh_status") == "ok")
+            st["fresh_raises_history_returns"] += int(rec.get("fresh_status") == "err")
+            st["no_reference_value"] += int("no_reference" in rec)
+            ck.count(("hist", json.dumps(case, sort_keys=True), rec["bi"]) if rec["bi"] > 0 else None)
+            if rec["bad"]:
+                key = hist_key([tuple(b) for b in rec["bad"]])
+                cur = best.get(key)
+                if cur is None or len(json.dumps(case)) < len(json.dumps(cur[0])):
+                    best[key] = (case, rec)
+    for key, (case, rec) in list(best.items())[:4]:
+        def fails(c, key=key):
+            return any(x["bad"] and hist_key([tuple(b) for b in x["bad"]]) == key for x in HI.judge_history(c))
+
+        try:
+            small = HI.shrink(case, fails)
+            recs = [x for x in HI.judge_history(small) if x["bad"] and hist_key([tuple(b) for b in x["bad"]]) == key]
+            if recs:
+                case, rec = small, recs[0]
+        except Exception:  # noqa: BLE001
+            pass
+        ck.failure(key, f"build #{rec['bi']} of a history over the same Vars returned a model that fails: {rec['bad'][:2]}",
+                   {"hist": case, "build_index": rec["bi"]})
+    ck.cov["histories"] = st
+
+
+def judge_typed(ck, typed_results):
+    """Verdicts of the shape-boundary calls: raised, or returned a model every judge accepts."""
+    st = {"cases": len(typed_results), "raised": 0, "returned_valid": 0, "by_site": {}, "well_typed_refused": 0}
+    best = {}
+    for r in typed_results:
+        case = r["case"]
+        site = st["by_site"].setdefault(case["site"], {"raised": 0, "returned": 0})
+        if r["status"] == "err":
+            st["raised"] += 1
+            site["raised"] += 1
+            st["well_typed_refused"] += int(str(case.get("tag", "")).startswith("same"))
+            ck.count(None)
+            continue
+        site["returned"] += 1
+        ck.count(("typed", json.dumps(case, sort_keys=True)))
+        if r["bad"]:
+            key = TY.classify(case, r["bad"])
+            cur = best.get(key)
+            if cur is None or len(json.dumps(case)) < len(json.dumps(cur[0])):
+                best[key] = (case, r["bad"])
+        else:
+            st["returned_valid"] += 1
+    for key, (case, bad) in list(best.items())[:4]:
+        ck.failure(key, f"a call whose argument shape {case['arg']} does not fit the declared {case['decl']} "
+                        f"({case.get('tag')}, site {case['site']}) was built into a model that fails: {bad[:2]}",
+                   {"typed": case})
+    ck.cov["shape_boundary_calls"] = st
 
 
 def observe_final_check(specs):
@@ -595,7 +693,11 @@ def run(ck: core.Check):
     # generated programs (oracle on all; naming correspondence on the 'naming' slice)
     n_oracle = pick(1600, 12000)
     n_naming = pick(500, 5000)
-    tasks = [(ck.seed, i, "oracle") for i in range(n_oracle)] + [(ck.seed, 10**6 + i, "naming") for i in range(n_naming)]
+    n_hist = pick(260, 3000)
+    n_typed = len(TY.all_cases()) + pick(250, 3000)
+    tasks = ([(ck.seed, i, "oracle") for i in range(n_oracle)] + [(ck.seed, 10**6 + i, "naming") for i in range(n_naming)]
+             + [(ck.seed, 2 * 10**6 + i, "hist") for i in range(n_hist)]
+             + [(ck.seed, 3 * 10**6 + i, "typed") for i in range(n_typed)])
     results = L.robust_map(case_worker, tasks, min(14, mp.cpu_count()), core.WORK)
     # a case on which the worker process died (C++ abort inside a third-party judge): judged again without
     # loading it into onnxruntime; recorded in the evidence
@@ -624,6 +726,11 @@ def run(ck: core.Check):
         ck.broken("correspondence", "C02 generated-program worker failed",
                   f"{len(crashes)} cases; first: {crashes[0]['crash']} {crashes[0].get('trace', '')[-400:]}")
     results = [r for r in results if not r.get("crash")]
+    hist_results = [r for r in results if r.get("mode") == "hist"]
+    typed_results = [r for r in results if r.get("mode") == "typed"]
+    results = [r for r in results if r.get("mode") not in ("hist", "typed")]
+    judge_histories(ck, hist_results)
+    judge_typed(ck, typed_results)
     dist = {"returned": 0, "raised": {}, "if": 0, "loop": 0, "inline": 0, "call": 0, "custom_ops": 0, "max_depth": 0,
             "mixed_versions": 0, "drop_true": 0}
     best: dict[str, dict] = {}
@@ -763,6 +870,24 @@ def run(ck: core.Check):
 
 def replay(ck: core.Check, doc) -> bool:
     case = doc.get("case") or {}
+    if case.get("hist") is not None:
+        failing = False
+        for rec in HI.judge_history(case["hist"]):
+            if rec["status"] == "err":
+                print(f"build #{rec['bi']} raised:", rec["err"])
+            for k, d in rec["bad"]:
+                print(f"build #{rec['bi']}: {k}: {d}")
+            failing |= bool(rec["bad"])
+        return failing
+    if case.get("typed") is not None:
+        st, m = TY.build_case(case["typed"])
+        if st == "err":
+            print("build raised:", m)
+            return False
+        bad = TY.judge_built(m)
+        for k, d in bad:
+            print(f"{k}: {d}")
+        return bool(bad)
     spec = case.get("spec")
     if spec is None:
         print("replay file names broken obligations only:", [b["name"] for b in doc.get("broken", [])])
